@@ -6,7 +6,7 @@ import (
 	"sort"
 )
 
-const c06Rule = "range fields: expressions > a, < b, between [l,h) and in{..}, each as include or exclude, bounds from {small values, +-2^62 and +-2^62-+1, adjacent/identical/nested/overlapping intervals}, narrow ranges (< 256 wide: expanded to values) and wide ranges (interval index), multi-valued assignments (ints, numeric strings, floats) at every boundary +-1, on the k-groups and compact indexes; through the hook: RangeIdx insert histories of 0..8 ranges (piece list before Compile compared piece by piece with the model, Retrieve probed at every boundary +-1 after Compile); thorough adds every history of <= 3 ranges over bounds {-2..3}. Non-trivial = some query returns a non-empty proper subset of the documents (end to end) / the history has at least two overlapping ranges (histories); distinct = distinct input"
+const c06Rule = "(half of the end-to-end cases over TWO range fields) range fields: expressions > a, < b, between [l,h) and in{..}, each as include or exclude, bounds from {small values, +-2^62 and +-2^62-+1, adjacent/identical/nested/overlapping intervals}, narrow ranges (< 256 wide: expanded to values) and wide ranges (interval index), multi-valued assignments (ints, numeric strings, floats) at every boundary +-1, on the k-groups and compact indexes; through the hook: RangeIdx insert histories of 0..8 ranges (piece list before Compile compared piece by piece with the model, Retrieve probed at every boundary +-1 after Compile); thorough adds every history of <= 3 ranges over bounds {-2..3}. Non-trivial = some query returns a non-empty proper subset of the documents (end to end) / the history has at least two overlapping ranges (histories); distinct = distinct input"
 
 type histIn struct {
 	Hist   bool       `json:"hist"`
@@ -87,7 +87,8 @@ func init() {
 				if i%2 == 1 {
 					kind = "compact"
 				}
-				c := eCase{Kind: kind, Policy: "error", Configs: map[int]string{2: "ext_range"}}
+				c := eCase{Kind: kind, Policy: "error", Configs: map[int]string{2: "ext_range", 3: "ext_range"}}
+				two := i%4 >= 2 // two range fields: each must keep its own values and intervals
 				nd := 1 + r.Intn(6)
 				for d := 0; d < nd; d++ {
 					doc := eDoc{ID: int64(d+1) * int64(1-2*r.Intn(2))}
@@ -95,7 +96,11 @@ func init() {
 						var cj eConj
 						for e := 1 + r.Intn(3); e > 0; e-- {
 							if r.Chance(80) {
-								cj = append(cj, rangeExpr(r, bs, r.Chance(65)))
+								e := rangeExpr(r, bs, r.Chance(65))
+								if two && r.Bool() {
+									e.F = 3
+								}
+								cj = append(cj, e)
 							} else {
 								cj = append(cj, eExpr{F: 0, Inc: r.Chance(70), V: intsShape(r, randVals(r, 1, 3))})
 							}
@@ -123,6 +128,9 @@ func init() {
 					}
 					if r.Chance(40) {
 						a = append(a, eAssign{F: 0, V: tvInt("int", r.I64(1, 4))})
+					}
+					if two && r.Chance(70) {
+						a = append(a, eAssign{F: 3, V: tvInt("int64", pick(r, bs)+int64(r.Intn(3)-1))})
 					}
 					c.Queries = append(c.Queries, eQuery{A: a})
 				}
